@@ -2,7 +2,7 @@
    Every generator is a pure function of the numbers drawn; theorems are about the exact-rational
    instance of coq/C18/Model.v unless they quantify over the index list itself. *)
 From Coq Require Import ZArith QArith List Bool.
-From QE Require Import Base.Num Base.Cases C16.Model C18.Model C18.Proofs.
+From QE Require Import Base.Num Base.Cases C16.Model C05.Model C18.Model C18.Proofs.
 Import ListNotations.
 Local Open Scope Q_scope.
 
@@ -96,6 +96,52 @@ Theorem C18_unit_vector_spec : forall n ones i j, (i < n)%nat -> (j < n)%nat ->
   nth j (nth i (unit_vector_payoff0 n ones) []) 0 = if (Z.of_nat i =? nth j ones (-1)%Z)%Z then 1 else 0.
 Proof. exact unit_vector_spec. Qed.
 Print Assumptions C18_unit_vector_spec.
+
+(* tournament_game payoff kernels, PARTIAL: entry c of node i's row is 1 exactly when c is the
+   k_array_rank_jit of the image (under i's sorted out-neighbour list nb) of a position set visited by the
+   next_k_array walk over [0,d), all zero when d < k; row j of the column player's matrix is the indicator of
+   the j-th array of the walk from [0..k-1].  That the walk visits every k-subset once and rank is its
+   position (hence "1 iff i dominates every node of the c-th subset") is C16's bijection statement and is
+   decided here by the oracle (independent itertools definition), not proved. *)
+Theorem C18_tournament_payoff0_partial : forall k m nb c, (0 <= c < m)%Z ->
+  let d := Z.of_nat (length nb) in
+  let ranks := map (fun a => k_array_rank_jit (map (fun t => zget nb t) a))
+                   (k_walk (S (Z.to_nat (binomZ d k))) d (zrange k)) in
+  nth (Z.to_nat c) (tg_payoff0_row k m nb) 0 =
+    if (d <? k)%Z then 0 else if existsb (Z.eqb c) ranks then 1 else 0.
+Proof. exact tg_payoff0_row_spec. Qed.
+Print Assumptions C18_tournament_payoff0_partial.
+
+Theorem C18_tournament_payoff1_partial : forall n k m j v, (j < Z.to_nat m)%nat -> (0 <= v < n)%Z ->
+  nth (Z.to_nat v) (nth j (tg_payoff1 n k m) []) 0 =
+    if existsb (Z.eqb v) (nth j (iter_next (Z.to_nat m) (zrange k)) []) then 1 else 0.
+Proof. exact tg_payoff1_spec. Qed.
+Print Assumptions C18_tournament_payoff1_partial.
+
+Definition C18_tournament_payoff_spec_full : Prop := forall n k rs i (X : list Z),
+  (length (pairs n) <= length rs)%nat -> (i < n)%nat ->
+  let edges := tournament_edges n rs in
+  (* X a strictly increasing k-subset of [0,n) *)
+  length X = k -> (forall t, (t + 1 < length X)%nat -> (nth t X 0 < nth (t + 1) X 0)%Z) ->
+  Forall (fun v => (0 <= v < Z.of_nat n)%Z) X ->
+  nth (Z.to_nat (k_array_rank X)) (nth i (fst (tournament_game n k rs)) []) 0 =
+    if forallb (fun v => existsb (fun e => Nat.eqb (fst e) i && Nat.eqb (snd e) (Z.to_nat v)) edges) X then 1 else 0.
+
+(* SGC game: the C05 model of support_enumeration applied to the model's sgc_game(k) returns exactly one
+   equilibrium, uniform on the first 2k-1 actions of each player.  Finite domain in the statement (k = 1, 2),
+   decided by vm_compute over exact rationals; k = 3 (705431 support pairs of an 11 x 11 game) is left to the
+   oracle (quantecon's own support_enumeration on the implementation's sgc_game(3)). *)
+Definition sgc_check (k : nat) : bool :=
+  let '(P0, P1) := sgc_payoffs k in
+  let n := (4 * k - 1)%nat in
+  let m := (2 * k - 1)%nat in
+  let u := map (fun i => if Nat.ltb i m then 1 / inject_Z (Z.of_nat m) else 0) (seq 0 n) in
+  list_eqb (fun p q => Qs_eqb (fst p) (fst q) && Qs_eqb (snd p) (snd q))
+           (@support_enumeration Q NumQ n n P0 P1) [(u, u)].
+Theorem C18_sgc_unique_equilibrium_partial : forall k, In k [1; 2]%nat -> sgc_check k = true.
+Proof. intros k [<-|[<-|[]]]; vm_compute; reflexivity. Qed.
+Print Assumptions C18_sgc_unique_equilibrium_partial.
+Definition C18_sgc_unique_equilibrium_full : Prop := forall k, In k [1; 2; 3]%nat -> sgc_check k = true.
 
 (* hypotheses are satisfiable by concrete non-trivial objects *)
 Example ex_probvec : Qs_eqb (@probvec_row Q NumQ [1 # 2; 1 # 8; 3 # 4]) [1 # 8; 3 # 8; 1 # 4; 1 # 4] = true.
